@@ -34,7 +34,7 @@ def hx(s):
 
 # ------------------------------------------------------------------------------------------------
 # quoting
-def quote_case(ctx, fns, s, cases, ucases, where):
+def quote_case(ctx, fns, s, cases, ucases, where, lcases=None):
     M, _quote, unquote, walk, get_var = fns
     case = {"kind": "quote", "name": s}
     try:
@@ -43,6 +43,9 @@ def quote_case(ctx, fns, s, cases, ucases, where):
         ctx.oracle_fail("_quote raised", case, type(e).__name__, "a string")
         return
     cases.append(("c12-quote " + sx(s), hx(q), {"name": s}))
+    if lcases is not None:
+        # the guard of C12_quote_reversible (`noLit`) is the guard the oracle uses (no literal %XX)
+        lcases.append(("c12-nolit " + sx(s), "0" if LIT.search(s) else "1", {"name": s}))
     quote_oracle(ctx, fns, s, q, case)
     try:
         u = unquote(q)
@@ -79,14 +82,15 @@ def quote_oracle(ctx, fns, s, q, case):
 
 def explore_quote(ctx, fns, tier, search=False):
     M, _quote, unquote, walk, get_var = fns
-    cases, ucases = [], []
+    cases, ucases, lcases = [], [], []
     import itertools
     for n in range(0, 4):
         for t in itertools.product(ALPHABET, repeat=n):
-            quote_case(ctx, fns, "".join(t), cases, ucases, "scope")
+            quote_case(ctx, fns, "".join(t), cases, ucases, "scope", lcases)
     ctx.correspond("_quote", cases)
+    ctx.correspond("noLit (guard of C12_quote_reversible)", lcases[::5] if tier == "quick" and not search else lcases)
     ctx.correspond("unquote", ucases[::7] if tier == "quick" and not search else ucases)
-    cases, ucases = [], []
+    cases, ucases, lcases = [], [], []
     rng = ctx.rng("quote-long")
     extra = ["dap4", "dap", "%2E", "%5b", "%", "%%", "%4", "€", "ß", "ࠀ", "\U0010ffff", "\x00", "\n", "dap4.ce"]
     for _ in range(ctx.budget(15000, 150000)):
@@ -97,8 +101,9 @@ def explore_quote(ctx, fns, tier, search=False):
             s = "dap4" + s[: rng.randint(0, 12)]
         elif r < 0.35:
             s = "dap4" + "".join(rng.choice(["é", "日", "𝄞", "%", "2", "E"]) for _ in range(rng.randint(0, 6)))
-        quote_case(ctx, fns, s, cases, ucases, "long")
+        quote_case(ctx, fns, s, cases, ucases, "long", lcases)
     ctx.correspond("_quote", cases)
+    ctx.correspond("noLit (guard of C12_quote_reversible)", lcases)
     ctx.correspond("unquote", ucases)
     # unquote on strings that are not outputs of _quote: ASCII escape alphabet, ASCII results only
     ucases = []
@@ -653,6 +658,17 @@ def explore_histories(ctx, fns, tier, search=False):
                  "impl": want[k] if k < len(want) else "(no step)", "model": got[k] if k < len(got) else "(no step)",
                  "meta": {"op": meta["ops"][k] if k < len(meta["ops"]) else None}}
             ctx.corr_disagreements.append(d if len(ctx.corr_disagreements) < 50 else None)
+    # the guard of the history theorems (`Op.scope`), evaluated by the model and, independently, here
+    _quote = fns[1]
+    scases = []
+    n_scope = 0
+    for (line, steps, meta) in cases:
+        ins = all("." not in _quote(o[2]).replace("%2E", ".") for o in meta["ops"] if o[0] == "new")
+        n_scope += 1 if ins else 0
+        scases.append(("c12-scope " + line[len("c12-run "):], "1" if ins else "0", {"ops": meta["ops"]}))
+    ctx.correspond("Op.scope (guard of the history theorems)", scases)
+    ctx.tags["history:inside-theorem-scope"] += n_scope
+    ctx.extra["histories_inside_theorem_scope"] = n_scope
     ctx.tags["history:model-outside"] += n_out
     ctx.extra["histories"] = len(cases)
     ctx.extra["histories_ended_by_unmodelled_behaviour"] = n_out
